@@ -370,6 +370,73 @@ def pathOut : Option (List Nat) → String
 def retOut (k : Nat) : String :=
   if k = 0 then "undefined" else if k = 1 then "num:1" else "arr:" ++ ",".intercalate ((List.range k).map (fun i => toString (i+1)))
 
+
+/-! ### observers (`view`) -/
+
+def vkind? : String → Option VKind
+  | "slice" => some .slice | "aptr" => some .arrPtr | "aval" => some .arrVal | "map" => some .map | "struct" => some .struct
+  | _ => none
+
+def strOf (k : Str) : String := String.ofList (k.map Char.ofNat)
+
+def kvList? (s : String) : Option (List (Str × Int)) :=
+  if s = "-" then some [] else
+  allSome ((s.splitOn ",").map (fun kv => match kv.splitOn "=" with
+    | [k, n] => (int? n).map (fun n => (asciiStr k, n))
+    | _ => none))
+
+def tagList? (s : String) : Option (List (Str × Str)) :=
+  if s = "-" then some [] else
+  allSome ((s.splitOn ",").map (fun kv => match kv.splitOn "=" with
+    | [t, n] => some (asciiStr t, asciiStr n)
+    | _ => none))
+
+def vop? (s : String) : Option VOp :=
+  match s.splitOn ":" with
+  | ["jw", k, n] => (int? n).map (.jsWrite (asciiStr k))
+  | ["gw", k, n] => (int? n).map (.goWrite (asciiStr k))
+  | ["jd", k] => some (.jsDelete (asciiStr k))
+  | ["gd", k] => some (.goDelete (asciiStr k))
+  | _ => none
+
+def bitsOut (bs : List Bool) : String := String.ofList (bs.map (fun b => if b then '1' else '0'))
+
+def modeOut (m : Nat) : String :=
+  bitsOut [m / 4 % 2 = 1, m / 2 % 2 = 1, m % 2 = 1]
+
+def descOut : Option (Option Int × Nat) → String
+  | none => "-"
+  | some (none, m) => "u/" ++ modeOut m
+  | some (some v, m) => toString v ++ "/" ++ modeOut m
+
+def contentsOut (kind : VKind) (es : List (Str × Int)) : String :=
+  match kind with
+  | .map => ",".intercalate (sortStrings (es.map (fun e => strOf e.1 ++ "=" ++ toString e.2)))
+  | .struct => ",".intercalate (es.map (fun e => strOf e.1 ++ "=" ++ toString e.2))
+  | _ => "|".intercalate (es.map (fun e => toString e.2))
+
+def vobsOut (kind : VKind) (o : VObs) : String :=
+  let ks := ",".intercalate (sortStrings (o.keys.map strOf))
+  "in:" ++ bitsOut o.has ++ ";own:" ++ bitsOut o.has ++ ";keys:" ++ ks ++ ";names:" ++ ks ++ ";forin:" ++ ks ++
+    ";forinown:" ++ ks ++ ";desc:" ++ ",".intercalate (o.desc.map descOut) ++ ";G:" ++ contentsOut kind o.contents ++ ";V:ok"
+
+def viewOut (kind : VKind) (os : List VObs) : String := "#".intercalate (os.map (vobsOut kind))
+
+def devView (s : VSt) (probes : List Str) : List String :=
+  if s.kind.isSeq ∧ probes.any (fun p => isIndexKey p ∧ (lookupEnt p s.ents).isNone) then
+    ["seq_out_of_range_index_reported_as_own_property"] else []
+
+def handleView (ws : List String) : String :=
+  match ws with
+  | [kind, init, tags, probes, steps] =>
+    (match vkind? kind, kvList? init, tagList? tags, (if steps = "-" then some [] else allSome ((steps.splitOn ";").map vop?)) with
+     | some k, some es, some ts, some ops =>
+       let st : VSt := { kind := k, ents := es, tags := ts }
+       let ps := (probes.splitOn ",").map asciiStr
+       reply (viewOut k (viewRun true st ps ops)) (viewOut k (viewRun false st ps ops)) (devView st ps)
+     | _, _, _, _ => "bad-op")
+  | _ => "bad-op"
+
 def handle (ws : List String) : String :=
   match ws with
   | ["num", t, n] => match nt? t, num? n with
@@ -433,6 +500,7 @@ def handle (ws : List String) : String :=
     (match type? t with
      | some st => reply (pathOut (fieldIndexByName st (asciiStr name))) (pathOut (Spec.fieldLookup st (asciiStr name))) []
      | none => "bad-op")
+  | "view" :: rest => handleView rest
   | ["ret", k] => (match nat? k with | some k => reply (retOut k) (retOut k) [] | none => "bad-op")
   | _ => "bad-op"
 
